@@ -23,10 +23,15 @@ def build(sdir):
     cc = build_chibicc(src)
     w = os.path.join(sdir, "w")
     os.makedirs(w, exist_ok=True)
-    r = sh([sys.executable, os.path.join(HERE, "genops.py"), w])
+    # does the compiler under test accept read-modify-write on an _Atomic long double at all? (the pinned one stops with an
+    # internal error; if a later one implements it, with a lock say, the operations are generated and checked like the others)
+    with open(os.path.join(w, "ald_probe.c"), "w") as f:
+        f.write("_Atomic long double x; long double f(long double v) { x += v; ++x; return x; }\n")
+    ald = sh([cc, "-S", "-I" + os.path.join(src, "include"), os.path.join(w, "ald_probe.c"), "-o", os.path.join(w, "ald_probe.s")]).returncode == 0
+    r = sh([sys.executable, os.path.join(HERE, "genops.py"), w] + (["--ald"] if ald else []))
     if r.returncode:
         raise BuildError("genops failed: " + r.stdout.decode())
-    stats = {}
+    stats = {"atomic_long_double_accepted_by_the_compiler": int(ald)}
     for tag, flags, base in (("cc", [], 0), ("pic", ["-fPIC"], 1000000)):
         r = sh([cc, "-S", "-I" + os.path.join(src, "include"), "-DPFX=%s_" % tag] + flags + [os.path.join(w, "ops.c"), "-o", os.path.join(w, "ops_%s.s" % tag)])
         if r.returncode:
